@@ -312,6 +312,16 @@ func (c *Wallet) checkTokenOwner(authToken string) error {
 	return nil
 }
 
+// checkToken refuses everything but a live token of this wallet's own profile. It guards the operations that can work
+// on data handed in by the caller alone (a raw credential or presentation): nothing else would look at their token.
+func (c *Wallet) checkToken(authToken string) error {
+	if !sessionManager().isSessionOf(authToken, c.profile.User) {
+		return ErrWalletLocked
+	}
+
+	return nil
+}
+
 // Export produces a serialized exported wallet representation.
 // Only ciphertext wallet contents can be exported.
 //
@@ -559,7 +569,7 @@ func (c *Wallet) Prove(authToken string, proofOptions *ProofOptions, credentials
 //
 // Returns: a boolean verified, and an error if verified is false.
 func (c *Wallet) Verify(authToken string, options VerificationOption) (bool, error) {
-	if err := c.checkTokenOwner(authToken); err != nil {
+	if err := c.checkToken(authToken); err != nil {
 		return false, err
 	}
 
@@ -783,6 +793,13 @@ func (c *Wallet) resolveCredentialToDerive(auth string, credential CredentialToD
 	opts := &deriveOpts{}
 
 	credential(opts)
+
+	if opts.credential != nil || len(opts.rawCredential) > 0 {
+		// a credential handed in by the caller: no stored content is read, so the token is checked here
+		if err := c.checkToken(auth); err != nil {
+			return nil, err
+		}
+	}
 
 	if opts.credential != nil {
 		return opts.credential, nil
